@@ -249,6 +249,90 @@ func TestVerifC02Reads(t *testing.T) {
 				cls["op:conflict-write"] = true
 				note(fmt.Sprintf("conflictWrite(%d,%d)", len(pts), want))
 			},
+			"newFieldTwoTypes": func(rt *rapid.T) {
+				// one batch gives a field that is new to the shard two (or three) different types, on different series of
+				// one measurement. Whatever the write reports, the field must end up with one type and only values of it.
+				if rapid.IntRange(0, 2).Draw(rt, "rare") != 0 {
+					rt.Skip("rare")
+				}
+				shard := rapid.SampledFrom(b.shards).Draw(rt, "shard")
+				m := rapid.SampledFrom(b.measurements).Draw(rt, "m")
+				seen := map[string]bool{}
+				var series []string
+				for k := range b.model {
+					if name, _ := vParseSeries(k.Series); k.Shard == shard && name == m && !seen[k.Series] {
+						seen[k.Series] = true
+						series = append(series, k.Series)
+					}
+				}
+				if len(series) < 2 {
+					rt.Skip("needs two series of the measurement")
+				}
+				sortStrings(series)
+				var nf string
+				for _, cand := range []string{"n0", "n1", "n2", "n3", "n4", "n5"} {
+					if mf := b.store.Shard(shard).MeasurementFields([]byte(m)); mf == nil || mf.Field(cand) == nil {
+						nf = cand
+						break
+					}
+				}
+				if nf == "" {
+					rt.Skip("no unused field name left")
+				}
+				types := rapid.Permutation(append([]byte(nil), vTypes...)).Draw(rt, "types")
+				n := rapid.IntRange(2, 3).Draw(rt, "npts")
+				if n > len(series) {
+					n = len(series)
+				}
+				picked := rapid.Permutation(series).Draw(rt, "series")[:n]
+				var pts []vPt
+				for i, sk := range picked {
+					name, tags := vParseSeries(sk)
+					pts = append(pts, vPt{M: name, Tags: tags, Fields: map[string]vVal{nf: vDrawValue(rt, types[i])}, TS: 5000 + int64(i)})
+				}
+				err := b.write(shard, pts)
+				_, partial := err.(tsdb.PartialWriteError)
+				// what the field holds now
+				var ft string
+				if mf := b.store.Shard(shard).MeasurementFields([]byte(m)); mf != nil {
+					if fd := mf.Field(nf); fd != nil {
+						ft = string(vTypeOfInfluxQL(fd.Type))
+					}
+				}
+				var rows []vRow
+				var rerr error
+				func() {
+					defer func() {
+						if p := recover(); p != nil {
+							rerr = fmt.Errorf("panic: %v", p)
+						}
+					}()
+					rows, rerr = b.readField(shard, m, nf, true, influxql.MinTime, influxql.MaxTime, "")
+				}()
+				if rerr != nil {
+					rt.Fatalf("%s after a batch that gave the new field %s.%s the types %q on different series (write returned %v), reading the field fails: %v", verifkit.Sig("field-holds-two-types"), m, nf, types[:n], err, rerr)
+				}
+				got := map[byte]int{}
+				for _, r := range rows {
+					got[r.V.T]++
+				}
+				if len(got) > 1 || (len(got) == 1 && ft != "" && got[ft[0]] == 0) {
+					rt.Fatalf("%s after a batch that gave the new field %s.%s the types %q on different series (write returned %v) the field is registered as %q and holds values of types %v", verifkit.Sig("field-holds-two-types"), m, nf, types[:n], err, ft, got)
+				}
+				if err == nil && len(rows) != n {
+					rt.Fatalf("%s a batch that gave the new field %s.%s the types %q on different series was acknowledged without an error, but %d of its %d points are readable", verifkit.Sig("conflicting-write-acknowledged"), m, nf, types[:n], len(rows), n)
+				}
+				if err != nil && !partial && len(rows) > 0 {
+					rt.Fatalf("%s the write failed with %v (not a partial write) but %d of its points are stored", verifkit.Sig("failed-write-stored-points"), err, len(rows))
+				}
+				if pw, ok := err.(tsdb.PartialWriteError); ok && pw.Dropped != n-len(rows) {
+					rt.Fatalf("%s PartialWriteError.Dropped=%d but %d of the %d points are missing", verifkit.Sig("partial-write-dropped-count"), pw.Dropped, n-len(rows), n)
+				}
+				cacheDirty[shard] = true
+				cls["op:new-field-two-types"] = true
+				nontrivial = true
+				note(fmt.Sprintf("newFieldTwoTypes(%d)", n))
+			},
 			"snapshotInstallFails": func(rt *rapid.T) {
 				// the new file cannot be installed (the file store observer refuses it): the snapshot must fail
 				// cleanly, everything stays readable from the cache, and a later snapshot succeeds
